@@ -221,7 +221,7 @@ fn text_family(o: &mut Out, r: &mut Rng, th: bool) {
             }
             let mut lead = vec![b' '; 5000]; lead.extend(&good); contents.push(lead);   // leading whitespace beyond a page
             for (ci, c) in contents.iter().enumerate() {
-                let kinds: &[&str] = if ci < 6 { &["plain", "spaces", "nonutf8", "long"] } else { &["plain", "nonutf8"] };
+                let kinds: &[&str] = if ci < 6 { &["plain", "spaces", "nonutf8", "long", "pipe"] } else if c.len() <= 9000 { &["plain", "nonutf8", "pipe"] } else { &["plain", "nonutf8"] };
                 for kind in kinds {
                     if !th && ci >= 6 && codec != "keypair" && *kind == "nonutf8" { continue; }
                     o.op(&format!("jsonfile.{}.{}", codec, kind), &format!("jsonfile {} {} {}", codec, if c.is_empty() { "-".to_string() } else { hex(c) }, kind));
@@ -396,6 +396,29 @@ fn range_context_family(o: &mut Out, r: &mut Rng, th: bool) {
                 let mut m = v.clone(); for x in m[32 * i..32 * i + 32].iter_mut() { *x = 0; }
                 o.op("decode.rctx.commitment-gap", &format!("decode rctx {}", hex(&m)));
             }
+        }
+    }
+    // valid commitments whose encoding contains an all-zero aligned 32-bit / 64-bit word, or begins / ends with zero
+    // bytes: they are commitments, not empty slots
+    {
+        let mut found: Vec<Vec<u8>> = vec![];
+        for word in 0..8usize {
+            for attempt in 0..400u32 {
+                let mut c = r.bytes(32);
+                c[0] &= 0xfe; c[31] &= 0x7f;
+                for x in c[4 * word..4 * word + 4].iter_mut() { *x = 0; }
+                if word % 2 == 0 && attempt % 2 == 1 { for x in c[4 * word..4 * word + 8].iter_mut() { *x = 0; } }
+                if curve25519_dalek::ristretto::CompressedRistretto::from_slice(&c).ok().and_then(|p| p.decompress()).is_some() { found.push(c); break; }
+            }
+        }
+        for (i, c) in found.iter().enumerate() {
+            for k in [1usize, 2, 8] {
+                let mut v = vec![0u8; 264];
+                for j in 0..k { v[32 * j..32 * j + 32].copy_from_slice(if j == k - 1 || j == 0 { c } else { &found[(i + j) % found.len()] }); v[256 + j] = 8; }
+                o.op("decode.rctx.commitment-with-zero-word", &format!("decode rctx {}", hex(&v)));
+            }
+            o.op("decode.cmt.zero-word", &format!("decode cmt {}", hex(c)));
+            o.op("decode.pubkey.zero-word", &format!("decode pubkey {}", hex(c)));
         }
     }
     for len in [0usize, 1, 263, 265, 528] { o.op("decode.rctx.length", &format!("decode rctx {}", hex(&r.bytes(len)))); }
